@@ -4,7 +4,7 @@ A module is re-elaborated only if the sha256 of (lean version, its text, the key
 project-local imports) has not been seen before; cached .olean files live in build/cache/<key>/.
 """
 from __future__ import annotations
-import hashlib, os, re, shutil, subprocess, sys, time
+import hashlib, os, re, shutil, subprocess, sys, threading, time
 from concurrent.futures import ThreadPoolExecutor
 
 VERIF = os.path.dirname(os.path.dirname(os.path.abspath(__file__)))
@@ -34,6 +34,12 @@ def local_imports(text: str) -> list[str]:
         if m and m.group(1).split(".")[0] in LOCAL_ROOTS:
             out.append(m.group(1))
     return out
+
+
+def _atomic_copy(src, dst):
+    tmp = f"{dst}.{os.getpid()}.{threading.get_ident()}.tmp"
+    shutil.copyfile(src, tmp)
+    os.replace(tmp, dst)
 
 
 class Result:
@@ -96,17 +102,22 @@ def build(mods: list[str], jobs: int = 16, timeout: int = 1500, verbose: bool = 
         dst = olean_of(m)
         os.makedirs(os.path.dirname(dst), exist_ok=True)
         if os.path.exists(os.path.join(cdir, "ok")):
-            shutil.copyfile(os.path.join(cdir, "m.olean"), dst)
+            _atomic_copy(os.path.join(cdir, "m.olean"), dst)
             r.ok, r.cached = True, True
             r.output = open(os.path.join(cdir, "out.txt")).read()
             r.seconds = float(open(os.path.join(cdir, "ok")).read() or 0)
             return r
         t = time.time()
         try:
-            p = subprocess.run(["lean", "-o", dst, module_path(m)], capture_output=True, text=True, env=env,
+            tmp_out = f"{dst}.{os.getpid()}.{threading.get_ident()}.tmp"
+            p = subprocess.run(["lean", "-o", tmp_out, module_path(m)], capture_output=True, text=True, env=env,
                                cwd=LEAN_SRC, timeout=timeout)
             r.output = p.stdout + p.stderr
             r.ok = p.returncode == 0
+            if r.ok:
+                os.replace(tmp_out, dst)
+            elif os.path.exists(tmp_out):
+                os.remove(tmp_out)
         except subprocess.TimeoutExpired:
             r.output = f"TIMEOUT after {timeout}s"
             r.ok = False
@@ -114,7 +125,7 @@ def build(mods: list[str], jobs: int = 16, timeout: int = 1500, verbose: bool = 
         r.seconds = time.time() - t
         if r.ok:
             os.makedirs(cdir, exist_ok=True)
-            shutil.copyfile(dst, os.path.join(cdir, "m.olean"))
+            _atomic_copy(dst, os.path.join(cdir, "m.olean"))
             open(os.path.join(cdir, "out.txt"), "w").write(r.output)
             open(os.path.join(cdir, "ok"), "w").write(f"{r.seconds:.2f}")
         if verbose:
